@@ -93,9 +93,9 @@ Proof.
   cbn [fst snd]. destruct (P2res s shr m c) as [m2 c2]. reflexivity.
 Qed.
 
-Lemma bget_view s r ks k : rinv s r -> In k ks -> lookup k (fst (fst (bget s ks))) = lookup k (rmap r).
+Lemma bget_is_view s ks k : In k ks -> lookup k (fst (fst (bget s ks))) = view (mem s) s k.
 Proof.
-  intros H Hin. rewrite <- (ri_mem _ _ H). rewrite bget_map_unfold.
+  intros Hin. rewrite bget_map_unfold.
   set (c0 := match cache s with Some c => c | None => [] end).
   destruct (phase1 s ks [] c0 []) as (A1 & A2 & A3 & A4 & A5).
   set (R1 := P1res s ks [] c0 []) in *.
@@ -114,3 +114,6 @@ Proof.
     destruct (lookup k (store s)) eqn:Es; [|reflexivity].
     exfalso. apply (B3 k); [apply C2; reflexivity|congruence|exact E2].
 Qed.
+
+Lemma bget_view s r ks k : rinv s r -> In k ks -> eqv (cneset s) k (lookup k (fst (fst (bget s ks)))) (lookup k (rmap r)).
+Proof. intros H Hin. rewrite (bget_is_view s ks k Hin). apply (ri_mem _ _ H). Qed.
